@@ -143,8 +143,19 @@ class Obligation(object):
             out.append("(assert %s)" % a)
         out.append("(assert %s)" % neg)
         out.append("(check-sat)")
-        if want_model and labels:
-            out.append("(get-value (%s))" % " ".join(l[1] for l in labels))
+        # ground applications of up/low: their model values are checked natively (z3 treats them as UFs)
+        self._updown = []
+        if uses_up and for_solver != "cvc5":
+            for t in allterms:
+                for st in tm.subterms(t):
+                    if st.op in ("up", "low") and not tm.free_vars(st, {}, frozenset()).keys() - fv.keys():
+                        if st not in [x[0] for x in self._updown]:
+                            self._updown.append((st, pr.p(st.args[0]), pr.p(st)))
+        extra = []
+        for (_, a_, b_) in self._updown:
+            extra += [a_, b_]
+        if want_model and (labels or extra):
+            out.append("(get-value (%s))" % " ".join([l[1] for l in labels] + extra))
         self._labels = labels
         self._uses_up = uses_up
         return "\n".join(out) + "\n"
@@ -299,8 +310,28 @@ def solve(ob, timeout_s=30, workdir=None, solvers=None, wait_all=False):
     for r in runs:
         v = r["verdict"]
         if v == "sat" and ob._uses_up and r["solver"] != "cvc5":
-            v = "unknown"  # up/low are uninterpreted for z3: its models are not trusted
-            r["verdict"] = "unknown(sat-with-uf-upper)"
+            # up/low are uninterpreted for z3: the model is believed only if it interprets every ground
+            # application as the real str.upper/str.lower and no application sits under a quantifier
+            ok_ = False
+            try:
+                vals = parse_sexprs(r["model_txt"])
+                pairs = vals[0][len(ob._labels):] if vals and isinstance(vals[0], list) else []
+                under_binder = any(st_.op in ("up", "low") for t_ in ob.hyps + [ob.goal] for q_ in tm.subterms(t_)
+                                   if q_.op in ("forall", "exists", "forall_range", "exists_range")
+                                   for st_ in tm.subterms(q_.args[-1]))
+                if len(pairs) == 2 * len(ob._updown) and not under_binder:
+                    ok_ = True
+                    for i_, (t_, _, _) in enumerate(ob._updown):
+                        a_ = sexpr_value(pairs[2 * i_][1])
+                        b_ = sexpr_value(pairs[2 * i_ + 1][1])
+                        want_ = a_.upper() if t_.op == "up" else a_.lower()
+                        if not isinstance(a_, str) or b_ != want_:
+                            ok_ = False
+            except Exception:
+                ok_ = False
+            if not ok_:
+                v = "unknown"
+                r["verdict"] = "unknown(sat-with-uf-upper)"
         verdicts[r["solver"]] = v
     res = dict(runs=runs, verdicts=verdicts, model=None, by=None, time=sum(r["time"] for r in runs),
                wall=time.time() - t0)
